@@ -7,9 +7,11 @@ TIMEOUT_MS = 100
 META = {
     "technique": "TLC model checking of ExecManager (safety exhaustively, liveness under weak fairness) + "
                  "trace validation of the real ExecutionManager::run under tokio's paused clock against the spec",
-    "level_note": "safety and liveness decided exhaustively on the bounded TLC models; the implementation is bound "
-                  "by executing every TLC-generated batch and seeded random batches of up to 200 outstanding "
-                  "requests and validating each recorded trace (stamps in virtual ms) as a behaviour of the spec",
+    "level_note": "Trusted: TLC, the projection (emit_line) and the scripted ExecutionClient in harness/src/bin/c07.rs, "
+                  "tokio's paused clock as the source of the virtual-time stamps, the environment assumptions listed in "
+                  "the evidence file. Safety and liveness are decided exhaustively on the bounded models only; the "
+                  "implementation is bound by executing every TLC-generated batch plus seeded random batches of up to "
+                  "200 outstanding requests and validating each recorded trace as a behaviour of the spec.",
 }
 ASSUMPTIONS = [
     "client order ids of the requests outstanding at one manager are distinct",
@@ -108,8 +110,8 @@ def describe(seg, T):
                 exp = expected_event(s, line["k"])
                 diff = [f for f in EV_FIELDS if line[f] != exp[f]]
                 if diff:
-                    out.append(("emit:%s:%s:%s:fields=%s" % (s["k"], line["k"], s["res"], ",".join(diff)),
-                                "%s: the %s event differs from the request in %s" % (
+                    out.append(("emit:%s:%s:%s:fields=%s" % (s["k"], line["k"], s["res"] if line["k"] == "resp" else "-", ",".join(diff)),
+                                "%s: the %s event differs from what the request and the client's answer determine in %s" % (
                                     pre, line["k"], ", ".join("%s=%s (expected %s)" % (f, json.dumps(line[f]), json.dumps(exp[f])) for f in diff))))
     if not out:
         out.append(("rejected:%s" % line["a"], "line %s at %d ms is not a step of ExecManager" % (line["a"], line["at"])))
@@ -234,12 +236,20 @@ def check(ctx):
     ctx.assumptions += ASSUMPTIONS
     ctx.build("c07")
     # the property on the specification: safety exhaustively, liveness under weak fairness
-    ctx.tlc_mc(MODULE, "MC_ExecManager.cfg" if ctx.quick else "MC_ExecManager_thorough.cfg", timeout=1500)
-    ctx.tlc_mc(MODULE, "MC_ExecManager_live.cfg" if ctx.quick else "MC_ExecManager_live_thorough.cfg", timeout=1500)
+    # (action coverage is taken from the liveness runs - same Next; -coverage slows the big runs down)
+    if ctx.quick:
+        ctx.tlc_mc(MODULE, "MC_ExecManager.cfg", timeout=900, coverage=False)
+        ctx.tlc_mc(MODULE, "MC_ExecManager_live.cfg", timeout=900)
+    else:
+        ctx.tlc_mc(MODULE, "MC_ExecManager_thorough.cfg", timeout=1800, coverage=False)
+        ctx.tlc_mc(MODULE, "MC_ExecManager_thorough2.cfg", timeout=1800, coverage=False)
+        ctx.tlc_mc(MODULE, "MC_ExecManager_live.cfg", timeout=900)
+        ctx.tlc_mc(MODULE, "MC_ExecManager_live_thorough.cfg", timeout=1800, coverage=False)
     # spec -> impl -> spec: every generated batch runs on the real manager, its trace is validated
     p_t, scn_t = ctx.tlc_gen("Gen_" + MODULE, "GenT_ExecManager.cfg", "batches.ndjson")
     out_t, _ = run_scenarios(ctx, p_t, scn_t, "batches")
-    selftest(ctx, out_t)
+    if not ctx.violations:
+        selftest(ctx, out_t)      # needs an accepted trace to corrupt
     if not ctx.quick:
         p_3, scn_3 = ctx.tlc_gen("Gen_" + MODULE, "GenT_ExecManager_thorough.cfg", "batches3.ndjson", timeout=900)
         run_scenarios(ctx, p_3, scn_3, "batches3")
@@ -248,24 +258,33 @@ def check(ctx):
     run_scenarios(ctx, p_r, scn_r, "simulated")
     ctx.sample({"kind": "TLC batch (exhaustive)", "scenario": scn_t[len(scn_t) // 2]})
     ctx.sample({"kind": "TLC batch (simulated, with shutdown)", "scenario": next((s for s in scn_r if s["shut"] >= 0), scn_r[0])})
-    # seeded random batches of up to 200 outstanding requests, several seeds / runs
-    runs, batches = (5, 6) if ctx.quick else (24, 12)
+    # seeded random batches of up to 200 outstanding requests, several seeds / runs (each run is a
+    # fresh runtime, so tokio's select! order is re-drawn); the traces are validated in one TLC run
+    runs, batches = (5, 6) if ctx.quick else (30, 10)
     ties = {"resp": 0, "timeout": 0}
+    all_lines, all_scns = [], []
     for k in range(runs):
         seed = ctx.seed * 1000 + k
         out = ctx.path("trace_random_%d.ndjson" % k)
         scn = ctx.path("random_%d.ndjson" % k)
         info = ctx.harness("c07", "random", "--seed", seed, "--batches", batches, "--max", 200, "--timeout", TIMEOUT_MS,
                            "--out", out, "--scn-out", scn)
-        scns = ctx.read_trace(scn)
-        validate(ctx, out, scns, "random/%d" % seed, big=True)
-        ctx.cov["scenarios_replayed"] += len(scns)
+        for l in ctx.read_trace(out):
+            l["n"] += len(all_scns)
+            all_lines.append(l)
+        all_scns += ctx.read_trace(scn)
         ties["resp"] += info.get("ties_emitted_as_response", 0)
         ties["timeout"] += info.get("ties_emitted_as_timeout", 0)
         if info.get("max_outstanding", 0) < 100:
             raise vlib.ToolError("random driver reached only %s outstanding requests" % info.get("max_outstanding"))
+    out = ctx.path("trace_random.ndjson")
+    with open(out, "w") as f:
+        for l in all_lines:
+            f.write(json.dumps(l) + "\n")
+    validate(ctx, out, all_scns, "random", big=True)
+    ctx.cov["scenarios_replayed"] += len(all_scns)
     ctx.cov["responses_exactly_at_deadline"] = ties
-    return ctx.finish(extra=META)
+    return ctx.finish()
 
 
 def replay(ctx, rp):
